@@ -387,6 +387,9 @@ class SourceMapBuilder:
         # logger.debug("<%d>: Adding opcode: %d -> %d, %d", id(self), op_offset, line_number, column)
         return self
 
+    def has_opcode(self, op_offset: int) -> bool:
+        return op_offset in self._mappings
+
     def add_position_mark(self, position_mark: SourceMapPositionMark) -> SourceMapBuilder:
         self._pos_marks.append(position_mark)
         # logger.debug("<%d>: Adding PositionMark: %s", id(self), position_mark)
